@@ -6,6 +6,7 @@ HARNESSES = {
     'seqcont_seq': {'san': 'asan'},
     'hashmap_seq': {'san': 'asan'},
     'holders_seq': {'san': 'asan'},
+    'unique_seq': {'san': 'asan'},
     # basic_string memcpy()s from a null buffer with length 0 (default-constructed strings): no listed property
     # speaks about zero-length copies, so UBSan's nonnull-attribute check is off for this harness (DESIGN.md 2.3)
     'string_seq': {'san': 'asan', 'cxxflags': ['-fno-sanitize=nonnull-attribute']},
@@ -138,5 +139,7 @@ PROPS['C17'] = {
     'assumptions': ['accessors only on engaged holders / active alternatives (asserted by the code)'],
 }
 PROPS['C16']['runs'].append({'harness': 'holders_seq', 'quick': {'enum': True, 'rc': rc(1500, sizes=[40, 80])}, 'thorough': {'enum': True, 'rc': rc(30000, sizes=[40, 80, 160])}})
+PROPS['C16']['runs'].append({'harness': 'unique_seq', 'quick': {'rc': rc(1500, sizes=[40, 80])}, 'thorough': {'rc': rc(30000, sizes=[40, 80, 160])}})
+PROPS['C16']['required_tags'] += ['unique_ptr', 'unique_memory', 'battery', 'history', 'kind-8', 'tuple-2']
 
 NOT_APPLICABLE = {}
